@@ -94,6 +94,17 @@ func prepScene(d *Driver, name string) {
 		if name == "chain" {
 			// a token the oracle and the asset profile have never heard of (fees may be paid in it)
 			ctx := c.AdminCtx()
+			// claimable Eden / EdenB (as earlier rewards would have credited them): committing them gives the Eden and EdenB
+			// representatives voting power next to the validator, so staking rewards are split three ways
+			for i, n := range []string{"u1", "u2", "u3"} {
+				coins := sdk.NewCoins(sdk.NewInt64Coin("ueden", int64(250_000_000_007+i*13_000_001)), sdk.NewInt64Coin("uedenb", int64(250_000_000_011+i*7_000_003)))
+				if err := c.App.CommitmentKeeper.MintCoins(ctx, "masterchef", coins); err != nil {
+					panic(err)
+				}
+				if err := c.App.CommitmentKeeper.SendCoinsFromModuleToAccount(ctx, "masterchef", c.Addr[n], coins); err != nil {
+					panic(err)
+				}
+			}
 			for _, n := range []string{"u1", "u2", "u3"} {
 				c.mint(ctx, c.Addr[n], sdk.NewCoins(sdk.NewInt64Coin("ibc/UNKNOWN", 1_000_000_000_000)))
 			}
